@@ -26,14 +26,16 @@ RULE = (
     "request on the same engine (two threads read the same counter before either wrote it back).  Non-trivial = a "
     "round in which >= 1 such interleaving was observed; distinct = (threads, engines, interleaving bucket, route mix)."
     "  A fourth route is Engine.make_leaf with empty and non-empty payloads; prefixes include identifier-like, "
-    "58-72 character, non-identifier ('deepCoadd.calexp', 'u/someone/run 1') and non-ASCII ones. "
+    "58-72 character, non-identifier ('deepCoadd.calexp', 'u/someone/run 1') and non-ASCII ones.  Half of the engines "
+    "of a round are additionally cloned (copy.copy, copy.deepcopy or a pickle round trip) after they have handed "
+    "out some names; the clone is a different engine that takes part in the round like the others. "
 )
 ASSUMPTIONS = [
     "schedules are explored only at the statement boundaries of get_relation_name (the only shared mutable state "
     "involved is the engine's relation_name_counter)",
     "CPython with the GIL; the monitor's own list is protected by its own lock",
 ]
-MIN_OBS = {"names_recorded": 20000, "observed_interleavings": 50, "injected_yields": 1000, "rounds": 10}
+MIN_OBS = {"names_recorded": 20000, "cloned_engines": 10, "observed_interleavings": 50, "injected_yields": 1000, "rounds": 10}
 _rec = {"lock": threading.Lock(), "names": [], "yields": 0}
 
 
@@ -101,6 +103,23 @@ def one_round(rng, nthreads, nreq):
 
     nengines = rng.randint(1, 3)
     engines = [iteration.Engine(name=f"it{i}") if rng.random() < 0.6 else sql.Engine(name=f"sql{i}") for i in range(nengines)]
+    # engines derived from an existing one after it has handed out some names: copy.copy,
+    # copy.deepcopy and a pickle round trip all give a *different* engine whose counter (and any
+    # other per-engine state) starts where the original stands
+    import copy
+    import pickle
+
+    ncloned = 0
+    for e in list(engines):
+        if rng.random() < 0.5:
+            for _ in range(rng.randint(0, 5)):
+                e.get_relation_name(rng.choice(["leaf", "materialization"]))
+            how = rng.choice(["copy", "deepcopy", "pickle"])
+            clone = copy.copy(e) if how == "copy" else copy.deepcopy(e) if how == "deepcopy" else pickle.loads(pickle.dumps(e))
+            engines.append(clone)
+            ncloned += 1
+    nengines = len(engines)
+    _rec["cloned"] = _rec.get("cloned", 0) + ncloned
     a = T("a")
     bases = []
     for e in engines:
@@ -218,6 +237,7 @@ def run_shard(seed, wid, nworkers, tier):
         remove_yield_injector(tool)
         sys.setswitchinterval(old)
     c["injected_yields"] = _rec["yields"]
+    c["cloned_engines"] = _rec.get("cloned", 0)
     c["distinct_names_total"] = len(all_names)
     out["sample"] = {"threads": nthreads, "rounds": c.get("rounds", 0), "names": len(all_names), "observed_interleavings": c.get("observed_interleavings", 0), "example_names": list(all_names)[:3]}
     out["extra"] = {"threads_per_round": nthreads}
